@@ -1,10 +1,11 @@
 #!/usr/bin/env python3
 """debug helper: dump calls / arms of a function from the cached facts"""
 import sys, os, glob
+sys.path.insert(0, os.path.dirname(os.path.abspath(__file__)))
 sys.path.insert(0, os.path.dirname(os.path.dirname(os.path.abspath(__file__))))
 from rules import core
-fs = sorted(glob.glob('/verif/.cache/facts*.json'), key=os.path.getmtime)
-F = core.Facts(fs[-1])
+from repofacts import load
+F = load()
 pat = sys.argv[1]
 mode = sys.argv[2] if len(sys.argv) > 2 else 'calls'
 for p in F.fns_matching(pat):
